@@ -336,3 +336,337 @@ Proof.
   destruct (wrap_list_spec cfg v (Forall_all _ (wrap_val_spec cfg) v) Hw 1) as [P [A _]].
   rewrite (value_print cfg _ P), A. reflexivity.
 Qed.
+
+(* ================================================================== numbering: 1, 2, ..., k in document order *)
+Fixpoint zipf (f : N -> str -> str) (i : N) (l : list str) : list str :=
+  match l with [] => [] | s :: r => f i s :: zipf f (i + 1) r end.
+Lemma zipf_app f a : forall i b, zipf f i (a ++ b) = zipf f i a ++ zipf f (i + N.of_nat (length a)) b.
+Proof.
+  induction a as [|s a IH]; intros i b; cbn [zipf app length].
+  - f_equal. lia.
+  - rewrite IH. do 3 f_equal. lia.
+Qed.
+
+Definition numbered (f : N -> str -> str) (before after : list str) (i j : N) : Prop :=
+  after = zipf f i before /\ j = i + N.of_nat (length before).
+Lemma numbered_nil f i : numbered f [] [] i i.
+Proof. split; [reflexivity|cbn; lia]. Qed.
+Lemma numbered_app f a a' b b' i j k : numbered f a a' i j -> numbered f b b' j k -> numbered f (a ++ b) (a' ++ b') i k.
+Proof.
+  intros [A1 B1] [A2 B2]. split.
+  - rewrite zipf_app, <- B1, <- A1, <- A2. reflexivity.
+  - rewrite app_length. lia.
+Qed.
+
+Definition tok_numbered (f : N -> str -> str) (t : wtok) : Prop :=
+  forall i, numbered f (leaves_tok t) (leaves_tok (fst (relabel_tok f t i))) i (snd (relabel_tok f t i)).
+Lemma list_numbered f l : Forall (tok_numbered f) l ->
+  forall i, numbered f (leaves l) (leaves (fst (relabel_list f l i))) i (snd (relabel_list f l i)).
+Proof.
+  induction 1 as [|x xs Hx _ IH]; intros i; cbn [relabel_list]; [apply numbered_nil|].
+  specialize (Hx i). destruct (relabel_tok f x i) as [x' i1]. specialize (IH i1).
+  destruct (relabel_list f xs i1) as [xs' i2]. cbn [fst snd leaves flat_map] in *. eapply numbered_app; eassumption.
+Qed.
+Definition leaves_args (args : list (list wtok)) : list str := flat_map (flat_map leaves_tok) args.
+Lemma args_numbered f args : Forall (Forall (tok_numbered f)) args ->
+  forall i, numbered f (leaves_args args) (leaves_args (fst (relabel_args f args i))) i (snd (relabel_args f args i)).
+Proof.
+  induction 1 as [|a r Ha _ IH]; intros i; cbn [relabel_args]; [apply numbered_nil|].
+  pose proof (list_numbered f a Ha i) as H1. destruct (relabel_list f a i) as [a' i1]. specialize (IH i1).
+  destruct (relabel_args f r i1) as [r' i2]. cbn [fst snd leaves_args flat_map] in *. eapply numbered_app; eassumption.
+Qed.
+Lemma tok_is_numbered f t : tok_numbered f t.
+Proof.
+  induction t as [s|name args IH] using wtok_ind2; intros i.
+  - cbn [relabel_tok fst snd leaves_tok]. split; [reflexivity|cbn; lia].
+  - rewrite relabel_tok_call. pose proof (args_numbered f args IH i) as H.
+    destruct (relabel_args f args i) as [args' i']. exact H.
+Qed.
+
+(* THEOREM (numbering): the leaves of the relabelled value are  f 1 t1, f 2 t2, ..., f k tk  in document order *)
+Theorem wrapped_leaves f ws : leaves (relabel f ws) = zipf f 1 (leaves ws).
+Proof. unfold relabel. exact (proj1 (list_numbered f ws (Forall_all _ (tok_is_numbered f) ws) 1)). Qed.
+
+(* ================================================================== relabel: extensional, identity *)
+Definition tok_ext (f g : N -> str -> str) (t : wtok) : Prop := forall i, relabel_tok f t i = relabel_tok g t i.
+Lemma list_ext f g l : Forall (tok_ext f g) l -> forall i, relabel_list f l i = relabel_list g l i.
+Proof.
+  induction 1 as [|x xs Hx _ IH]; intros i; cbn [relabel_list]; [reflexivity|].
+  rewrite Hx. destruct (relabel_tok g x i) as [x' i1]. rewrite IH. reflexivity.
+Qed.
+Lemma args_ext f g args : Forall (Forall (tok_ext f g)) args -> forall i, relabel_args f args i = relabel_args g args i.
+Proof.
+  induction 1 as [|a r Ha _ IH]; intros i; cbn [relabel_args]; [reflexivity|].
+  rewrite (list_ext f g a Ha). destruct (relabel_list g a i) as [a' i1]. rewrite IH. reflexivity.
+Qed.
+Lemma relabel_ext f g : (forall i s, f i s = g i s) -> forall ws, relabel f ws = relabel g ws.
+Proof.
+  intros H ws. unfold relabel. rewrite (list_ext f g ws); [reflexivity|]. apply Forall_all.
+  intros t. induction t as [s|name args IH] using wtok_ind2; intros i.
+  - cbn [relabel_tok]. rewrite H. reflexivity.
+  - rewrite !relabel_tok_call, (args_ext f g args IH). reflexivity.
+Qed.
+
+Definition tok_id (t : wtok) : Prop := forall i, fst (relabel_tok placeholder t i) = t.
+Lemma list_id l : Forall tok_id l -> forall i, fst (relabel_list placeholder l i) = l.
+Proof.
+  induction 1 as [|x xs Hx _ IH]; intros i; cbn [relabel_list]; [reflexivity|].
+  specialize (Hx i). destruct (relabel_tok placeholder x i) as [x' i1]. specialize (IH i1).
+  destruct (relabel_list placeholder xs i1) as [xs' i2]. cbn [fst] in *. subst. reflexivity.
+Qed.
+Lemma args_id args : Forall (Forall tok_id) args -> forall i, fst (relabel_args placeholder args i) = args.
+Proof.
+  induction 1 as [|a r Ha _ IH]; intros i; cbn [relabel_args]; [reflexivity|].
+  pose proof (list_id a Ha i) as H1. destruct (relabel_list placeholder a i) as [a' i1]. specialize (IH i1).
+  destruct (relabel_args placeholder r i1) as [r' i2]. cbn [fst] in *. subst. reflexivity.
+Qed.
+Lemma relabel_placeholder ws : relabel placeholder ws = ws.
+Proof.
+  unfold relabel. apply list_id, Forall_all. intros t.
+  induction t as [s|name args IH] using wtok_ind2; intros i; [reflexivity|].
+  rewrite relabel_tok_call. pose proof (args_id args IH i) as H.
+  destruct (relabel_args placeholder args i) as [args' i']. cbn [fst] in *. subst. reflexivity.
+Qed.
+
+(* THEOREM (erasure, library default callback): a field prints as its placeholder, so the wrapped value prints
+   exactly like the unwrapped one *)
+Theorem erase_identity cfg v :
+  c_field cfg = FieldPlaceholder -> forallb wrappable v = true -> forallb (printable cfg) v = true ->
+  output_value cfg (wrap_with_field cfg v) = output_value cfg v.
+Proof.
+  intros Hf Hw Hp. rewrite (wrapped_print cfg v Hw), (value_print cfg v Hp).
+  rewrite (relabel_ext (field_of cfg) placeholder); [rewrite relabel_placeholder; reflexivity|].
+  intros i s. unfold field_of, push_field. rewrite Hf. reflexivity.
+Qed.
+
+(* ================================================================== erase_fields on strings *)
+Definition dig (c : char) : bool := (c_0 <=? c) && (c <=? c_9).
+Fixpoint span_dig (s : str) : nat :=
+  match s with c :: r => if dig c then S (span_dig r) else O | [] => O end.
+
+(* a tabstop head at the start of s: "${" digits ":" opens a wrapper (Some (length, true));
+   "${" digits "}" is a tabstop without placeholder (Some (length, false)) *)
+Definition field_head (s : str) : option (nat * bool) :=
+  match s with
+  | c1 :: c2 :: r =>
+      if (c1 =? c_dollar) && (c2 =? c_lbrace) then
+        match span_dig r with
+        | O => None
+        | nd => match skipn nd r with
+                | c :: _ => if c =? c_colon then Some ((3 + nd)%nat, true)
+                            else if c =? c_rbrace then Some ((3 + nd)%nat, false) else None
+                | [] => None
+                end
+        end
+      else None
+  | _ => None
+  end.
+
+Fixpoint erase_go (skip depth : nat) (s : str) : str :=
+  match s with
+  | [] => []
+  | c :: r =>
+      match skip with
+      | S k => erase_go k depth r
+      | O =>
+          match field_head s with
+          | Some (len, opens) => erase_go (pred len) (if opens then S depth else depth) r
+          | None =>
+              if (c =? c_rbrace) && negb (Nat.eqb depth 0) then erase_go 0 (pred depth) r
+              else c :: erase_go 0 depth r
+          end
+      end
+  end.
+(* removes every wrapper `${<digits>:` ... `}` (the text inside stays) and every `${<digits>}` *)
+Definition erase_fields (s : str) : str := erase_go 0 0 s.
+
+(* texts the wrappers cannot be confused with: no `$`, no `}` *)
+Definition cleanb (s : str) : bool := forallb (fun c => negb (c =? c_dollar) && negb (c =? c_rbrace)) s.
+Fixpoint clean_tok (t : wtok) : bool :=
+  match t with
+  | WLeaf s => cleanb s
+  | WCall name args => cleanb name && forallb (forallb clean_tok) args
+  end.
+Definition clean (s : str) : Prop := Forall (fun c => c <> c_dollar /\ c <> c_rbrace) s.
+Lemma cleanb_clean s : cleanb s = true -> clean s.
+Proof.
+  unfold cleanb, clean. rewrite forallb_forall, Forall_forall. intros H c Hc. specialize (H c Hc).
+  apply andb_prop in H. destruct H as [H1 H2]. apply negb_true_iff in H1, H2. apply N.eqb_neq in H1, H2. split; assumption.
+Qed.
+
+Lemma erase_skip p : forall d r, erase_go (length p) d (p ++ r) = erase_go 0 d r.
+Proof.
+  induction p as [|c p IH]; intros d r; [destruct r; reflexivity|].
+  cbn [length app erase_go]. apply IH.
+Qed.
+Lemma field_head_not_dollar c r : c <> c_dollar -> field_head (c :: r) = None.
+Proof.
+  intros H. unfold field_head. destruct r as [|c2 r]; [reflexivity|].
+  destruct (c =? c_dollar) eqn:E; [apply N.eqb_eq in E; contradiction|reflexivity].
+Qed.
+Lemma erase_plain s : clean s -> forall d r, erase_go 0 d (s ++ r) = s ++ erase_go 0 d r.
+Proof.
+  induction 1 as [|c s [H1 H2] _ IH]; intros d r; [reflexivity|].
+  cbn [app erase_go]. rewrite (field_head_not_dollar c (s ++ r) H1).
+  destruct (c =? c_rbrace) eqn:E; [apply N.eqb_eq in E; contradiction|]. cbn [andb]. rewrite IH. reflexivity.
+Qed.
+Lemma erase_close d r : erase_go 0 (S d) (c_rbrace :: r) = erase_go 0 d r.
+Proof. cbn [erase_go]. rewrite field_head_not_dollar by discriminate. reflexivity. Qed.
+
+(* the decimal numeral of an index: ASCII digits, at least one *)
+Lemma digits_fuel_dig fuel : forall n acc, Forall (fun c => dig c = true) acc ->
+  Forall (fun c => dig c = true) (digits_fuel fuel n acc) /\ (acc <> [] -> digits_fuel fuel n acc <> []).
+Proof.
+  induction fuel as [|f IH]; intros n acc Ha; cbn [digits_fuel]; [split; [exact Ha|auto]|].
+  assert (Hd : dig (c_0 + n mod 10) = true).
+  { unfold dig, c_0, c_9. pose proof (N.mod_upper_bound n 10 ltac:(discriminate)) as Hm.
+    revert Hm. generalize (n mod 10). intros m Hm. lia. }
+  destruct (n <? 10).
+  - split; [constructor; assumption|discriminate].
+  - destruct (IH (n / 10) ((c_0 + n mod 10) :: acc) (Forall_cons _ Hd Ha)) as [A B]. split; [exact A|].
+    intros _. apply B. discriminate.
+Qed.
+Lemma str_of_N_dig n : Forall (fun c => dig c = true) (str_of_N n) /\ str_of_N n <> [].
+Proof.
+  unfold str_of_N. cbn [digits_fuel].
+  assert (Hd : dig (c_0 + n mod 10) = true).
+  { unfold dig, c_0, c_9. pose proof (N.mod_upper_bound n 10 ltac:(discriminate)) as Hm.
+    revert Hm. generalize (n mod 10). intros m Hm. lia. }
+  destruct (n <? 10).
+  - split; [repeat constructor; assumption|discriminate].
+  - destruct (digits_fuel_dig (N.to_nat (N.log2 n)) (n / 10) [c_0 + n mod 10] (Forall_cons _ Hd (Forall_nil _))) as [A B].
+    split; [exact A|apply B; discriminate].
+Qed.
+Lemma span_dig_app ds c r : Forall (fun c => dig c = true) ds -> dig c = false -> span_dig (ds ++ c :: r) = length ds.
+Proof.
+  induction 1 as [|x ds Hx _ IH]; intros Hc; cbn [app span_dig length]; [rewrite Hc; reflexivity|].
+  rewrite Hx, IH by exact Hc. reflexivity.
+Qed.
+Lemma skipn_app_len {A} (l r : list A) : skipn (length l) (l ++ r) = r.
+Proof. induction l; [reflexivity|assumption]. Qed.
+
+Lemma field_head_tab ds c rest : Forall (fun c => dig c = true) ds -> ds <> [] -> dig c = false ->
+  field_head (c_dollar :: c_lbrace :: ds ++ c :: rest) =
+  if c =? c_colon then Some ((3 + length ds)%nat, true)
+  else if c =? c_rbrace then Some ((3 + length ds)%nat, false) else None.
+Proof.
+  intros Hd Hn Hc. unfold field_head. rewrite !N.eqb_refl. cbn [andb].
+  rewrite (span_dig_app ds c rest Hd Hc). destruct ds as [|x ds]; [contradiction|].
+  cbn [length]. change (S (length ds)) with (length (x :: ds)). rewrite skipn_app_len. reflexivity.
+Qed.
+
+Lemma erase_skip1 p c : forall d r, erase_go (S (length p)) d (p ++ c :: r) = erase_go 0 d r.
+Proof.
+  intros d r. replace (S (length p)) with (length (p ++ [c])) by (rewrite app_length; cbn [length]; lia).
+  replace (p ++ c :: r) with ((p ++ [c]) ++ r) by (rewrite <- app_assoc; reflexivity). apply erase_skip.
+Qed.
+
+Lemma erase_tab i t : clean t -> forall d r, erase_go 0 d (tabstop i t ++ r) = t ++ erase_go 0 d r.
+Proof.
+  intros Ht d r. destruct (str_of_N_dig i) as [Hd Hn]. unfold tabstop.
+  change (lit "${") with [c_dollar; c_lbrace]. destruct t as [|c0 t].
+  - cbn [app]. rewrite <- app_assoc. cbn [app].
+    cbn [erase_go]. rewrite (field_head_tab (str_of_N i) c_rbrace r Hd Hn eq_refl).
+    change (c_rbrace =? c_colon) with false. rewrite N.eqb_refl. cbv iota.
+    cbn [Nat.add pred erase_go]. apply erase_skip1.
+  - cbn [app]. rewrite <- !app_assoc. cbn [app].
+    cbn [erase_go]. rewrite (field_head_tab (str_of_N i) c_colon _ Hd Hn eq_refl). rewrite N.eqb_refl. cbv iota.
+    cbn [Nat.add pred erase_go]. rewrite erase_skip1.
+    replace (c0 :: (t ++ [c_rbrace]) ++ r) with ((c0 :: t) ++ c_rbrace :: r) by (cbn [app]; rewrite <- app_assoc; reflexivity).
+    rewrite (erase_plain (c0 :: t) Ht), erase_close. reflexivity.
+Qed.
+
+(* ---- erase_fields undoes relabel tabstop, on the printed string *)
+Lemma join_concat sep x l : join sep (x :: l) = x ++ concat (map (fun y => sep ++ y) l).
+Proof.
+  revert x. induction l as [|a l IH]; intros x; [cbn; symmetry; apply app_nil_r|].
+  change (join sep (x :: a :: l)) with (x ++ sep ++ join sep (a :: l)). rewrite IH. cbn [map concat].
+  rewrite <- app_assoc. reflexivity.
+Qed.
+
+Definition aprint (a : list wtok) : str := join [c_space] (map wprint_tok a).
+Definition tail_toks (l : list wtok) : str := concat (map (fun t => [c_space] ++ wprint_tok t) l).
+Definition tail_args (l : list (list wtok)) : str := concat (map (fun a => lit ", " ++ aprint a) l).
+Lemma aprint_cons x l : aprint (x :: l) = wprint_tok x ++ tail_toks l.
+Proof. unfold aprint, tail_toks. cbn [map]. rewrite join_concat, map_map. reflexivity. Qed.
+Lemma args_print_cons a l : join (lit ", ") (map aprint (a :: l)) = aprint a ++ tail_args l.
+Proof. unfold tail_args. cbn [map]. rewrite join_concat, map_map. reflexivity. Qed.
+
+Definition tok_erases (t : wtok) : Prop :=
+  clean_tok t = true -> forall i d r,
+    erase_go 0 d (wprint_tok (fst (relabel_tok tabstop t i)) ++ r) = wprint_tok t ++ erase_go 0 d r.
+
+Lemma clean_space : clean [c_space]. Proof. repeat constructor; discriminate. Qed.
+Lemma clean_comma : clean (lit ", "). Proof. repeat constructor; discriminate. Qed.
+Lemma clean_lparen : clean [c_lparen]. Proof. repeat constructor; discriminate. Qed.
+Lemma clean_rparen : clean [c_rparen]. Proof. repeat constructor; discriminate. Qed.
+
+Lemma tail_toks_erases l : Forall tok_erases l -> forallb clean_tok l = true -> forall i d r,
+  erase_go 0 d (tail_toks (fst (relabel_list tabstop l i)) ++ r) = tail_toks l ++ erase_go 0 d r.
+Proof.
+  induction 1 as [|x xs Hx _ IH]; intros Hc i d r; cbn [relabel_list]; [reflexivity|].
+  cbn [forallb] in Hc. apply andb_prop in Hc. destruct Hc as [C1 C2].
+  specialize (Hx C1 i). destruct (relabel_tok tabstop x i) as [x' i1]. specialize (IH C2 i1).
+  destruct (relabel_list tabstop xs i1) as [xs' i2]. cbn [fst] in *.
+  unfold tail_toks in *. cbn [map concat]. rewrite <- !app_assoc.
+  rewrite (erase_plain [c_space] clean_space), Hx, IH. reflexivity.
+Qed.
+Lemma aprint_erases l : Forall tok_erases l -> forallb clean_tok l = true -> forall i d r,
+  erase_go 0 d (aprint (fst (relabel_list tabstop l i)) ++ r) = aprint l ++ erase_go 0 d r.
+Proof.
+  intros HF Hc i d r. destruct HF as [|x xs Hx HF]; [reflexivity|].
+  cbn [forallb] in Hc. apply andb_prop in Hc. destruct Hc as [C1 C2]. cbn [relabel_list].
+  specialize (Hx C1 i). destruct (relabel_tok tabstop x i) as [x' i1].
+  pose proof (tail_toks_erases xs HF C2 i1) as HT. destruct (relabel_list tabstop xs i1) as [xs' i2]. cbn [fst] in *.
+  rewrite !aprint_cons, <- !app_assoc, Hx, HT. reflexivity.
+Qed.
+Lemma tail_args_erases args : Forall (Forall tok_erases) args -> forallb (forallb clean_tok) args = true -> forall i d r,
+  erase_go 0 d (tail_args (fst (relabel_args tabstop args i)) ++ r) = tail_args args ++ erase_go 0 d r.
+Proof.
+  induction 1 as [|a l Ha _ IH]; intros Hc i d r; cbn [relabel_args]; [reflexivity|].
+  cbn [forallb] in Hc. apply andb_prop in Hc. destruct Hc as [C1 C2].
+  pose proof (aprint_erases a Ha C1 i) as H1. destruct (relabel_list tabstop a i) as [a' i1]. specialize (IH C2 i1).
+  destruct (relabel_args tabstop l i1) as [l' i2]. cbn [fst] in *.
+  unfold tail_args in *. cbn [map concat]. rewrite <- !app_assoc.
+  rewrite (erase_plain (lit ", ") clean_comma), H1, IH. reflexivity.
+Qed.
+Lemma args_print_erases args : Forall (Forall tok_erases) args -> forallb (forallb clean_tok) args = true -> forall i d r,
+  erase_go 0 d (join (lit ", ") (map aprint (fst (relabel_args tabstop args i))) ++ r) =
+  join (lit ", ") (map aprint args) ++ erase_go 0 d r.
+Proof.
+  intros HF Hc i d r. destruct HF as [|a l Ha HF]; [reflexivity|].
+  cbn [forallb] in Hc. apply andb_prop in Hc. destruct Hc as [C1 C2]. cbn [relabel_args].
+  pose proof (aprint_erases a Ha C1 i) as H1. destruct (relabel_list tabstop a i) as [a' i1].
+  pose proof (tail_args_erases l HF C2 i1) as HT. destruct (relabel_args tabstop l i1) as [l' i2]. cbn [fst] in *.
+  rewrite !args_print_cons, <- !app_assoc, H1, HT. reflexivity.
+Qed.
+
+Lemma tok_does_erase t : tok_erases t.
+Proof.
+  induction t as [s|name args IH] using wtok_ind2; unfold tok_erases; intros Hc i d r.
+  - cbn [relabel_tok fst wprint_tok clean_tok] in *. apply erase_tab, cleanb_clean, Hc.
+  - rewrite relabel_tok_call. cbn [clean_tok] in Hc. apply andb_prop in Hc. destruct Hc as [Cn Ca].
+    pose proof (args_print_erases args IH Ca i) as H. destruct (relabel_args tabstop args i) as [args' i'].
+    cbn [fst wprint_tok] in *. fold aprint. rewrite <- !app_assoc.
+    rewrite (erase_plain name (cleanb_clean name Cn)), (erase_plain [c_lparen] clean_lparen), H.
+    rewrite (erase_plain [c_rparen] clean_rparen). reflexivity.
+Qed.
+
+(* THEOREM (erasure on strings): printing the value with every leaf wrapped in ${i:...} and erasing the wrappers
+   gives the plain printing -- for every value whose texts and names contain neither `$` nor `}` *)
+Theorem erase_relabel ws : forallb clean_tok ws = true -> erase_fields (wprint (relabel tabstop ws)) = wprint ws.
+Proof.
+  intros Hc. unfold erase_fields, wprint, relabel. fold (aprint ws). fold (aprint (fst (relabel_list tabstop ws 1))).
+  pose proof (aprint_erases ws (Forall_all _ tok_does_erase ws) Hc 1 0%nat []) as H.
+  rewrite !app_nil_r in H. exact H.
+Qed.
+
+Theorem erase_tabstop cfg v :
+  c_field cfg = FieldTabstop -> forallb wrappable v = true -> forallb (printable cfg) v = true ->
+  forallb clean_tok (abs cfg v) = true ->
+  erase_fields (output_value cfg (wrap_with_field cfg v)) = output_value cfg v.
+Proof.
+  intros Hf Hw Hp Hc. rewrite (wrapped_print cfg v Hw), (value_print cfg v Hp).
+  rewrite (relabel_ext (field_of cfg) tabstop); [apply erase_relabel, Hc|].
+  intros i s. unfold field_of, push_field, tabstop. rewrite Hf. reflexivity.
+Qed.
